@@ -18,6 +18,7 @@ import (
 	"github.com/PapaCharlie/go-restli/v2/restli"
 	"github.com/PapaCharlie/go-restli/v2/restlicodec"
 	"verif/harness/hx"
+	"verif/harness/tbl"
 )
 
 type Config struct {
@@ -676,6 +677,9 @@ func Run(cfg Config) *hx.Result {
 		"queries nil/empty/encoded/with '?'/long; plus a malformed stream (raw URL text with bad schemes, userinfo, IPv6, bad escapes, control bytes, fragments) for the net/url model ops; " +
 		"a fmtquery case is non-trivial when it lies in the property's quantifier (D evaluated); distinct by op line"
 	rng := hx.Rng(cfg.Seed, "c15")
+	if len(cfg.Replay) == 0 {
+		tbl.Confirm(cfg.Driver, cfg.Module, r)
+	}
 
 	if len(cfg.Replay) > 0 {
 		for _, line := range cfg.Replay {
